@@ -176,6 +176,7 @@ fn exec(w: &mut World, toks: &[&str], i: usize) -> (usize, String) {
       let r = match (op, w.h(h)) {
         ("ts", Some(H::STx(t))) => show_try_send(t.try_send(P(v))),
         ("ts", Some(H::ATx(t))) => show_try_send(t.try_send(P(v))),
+        ("sd", Some(H::STx(t))) if t.is_full() && !t.is_closed() => return (3, "WOULDBLOCK".into()),
         ("sd", Some(H::STx(t))) => match t.send(P(v)) {
           Ok(()) => "ok".into(),
           Err(_) => "closed".into(),
@@ -190,6 +191,9 @@ fn exec(w: &mut World, toks: &[&str], i: usize) -> (usize, String) {
       let r = match (op, w.h(h)) {
         ("tr", Some(H::SRx(r))) => show_try_recv(r.try_recv()),
         ("tr", Some(H::ARx(r))) => show_try_recv(r.try_recv()),
+        // a blocking form that certainly has to wait is not executed (public observers only): the
+        // same token as the model's; anything else that sticks is caught by the watchdog as HANG
+        ("rc", Some(H::SRx(r))) if r.is_empty() && !r.is_closed() => "WOULDBLOCK".into(),
         ("rc", Some(H::SRx(r))) => match r.recv() {
           Ok(p) => format!("v {}", take(p)),
           Err(_) => "disc".into(),
@@ -423,6 +427,12 @@ fn exec(w: &mut World, toks: &[&str], i: usize) -> (usize, String) {
       let r = match (op, w.h(h)) {
         ("tsb", Some(H::STx(t))) => show_tsb(t.try_send_batch(items)),
         ("tsb", Some(H::ATx(t))) => show_tsb(t.try_send_batch(items)),
+        ("sdb" | "sdm", Some(H::STx(t))) if n > 0 && !t.is_closed() && t.len() + n > t.capacity() => {
+          for p in items {
+            std::mem::forget(p);
+          }
+          return (3 + n, "WOULDBLOCK".into());
+        }
         ("sdb", Some(H::STx(t))) => show_sb(t.send_batch(items)),
         ("tsm", Some(H::STx(t))) => {
           let mut it = items;
@@ -454,6 +464,7 @@ fn exec(w: &mut World, toks: &[&str], i: usize) -> (usize, String) {
       let r = match (op, w.h(h)) {
         ("trb", Some(H::SRx(t))) => t.try_recv_batch(max).map_err(|e| e == TryRecvError::Empty),
         ("trb", Some(H::ARx(t))) => t.try_recv_batch(max).map_err(|e| e == TryRecvError::Empty),
+        ("rcb", Some(H::SRx(t))) if max > 0 && t.is_empty() && !t.is_closed() => return (3, "WOULDBLOCK".into()),
         ("rcb", Some(H::SRx(t))) => t.recv_batch(max).map_err(|_| false),
         _ => return bad(3),
       };
